@@ -58,7 +58,12 @@ class HelpersMachine(Machine):
             types = [rng.choice(["int", "float", "str", "bool", "default"]) for _ in range(nc)]
         cfg["cols"] = COLS[:nc]
         cfg["types"] = types
-        cfg["dict_start"] = rng.random() < 0.3 and target == "rows_list"
+        cfg["dict_start"] = rng.random() < 0.3 and target in ("rows_list", "rows_array")
+        if cfg["dict_start"] and target == "rows_array":
+            # columns created by the first dict row are plain float columns; rows mix
+            # ints, floats and bools, all of which such a column must keep (as floats)
+            cfg["types"] = ["default"] * nc
+            cfg["mixed_numeric"] = True
         cfg["ties"] = rng.random() < 0.6
         return cfg
 
@@ -78,7 +83,7 @@ class HelpersMachine(Machine):
             self.types = list(c["types"])
             self.array = self.kind == "rows_array"
             if c.get("dict_start"):
-                self.rc = RowCollector()
+                self.rc = RowCollector(array=True) if self.array else RowCollector()
                 self.cols_known = False
             elif self.array:
                 spec = {}
@@ -99,6 +104,13 @@ class HelpersMachine(Machine):
         small = self.cfg["ties"]
         if t == "int":
             return rng.randint(0, 3) if small else rng.randint(-1000, 1000)
+        if t == "default" and self.cfg.get("mixed_numeric"):
+            r = rng.random()
+            if r < 0.4:
+                return rng.randint(0, 5)
+            if r < 0.5:
+                return rng.random() < 0.5
+            return round(rng.uniform(-10, 10), 2)
         if t in ("float", "default"):
             return float(rng.randint(0, 3)) if small else round(rng.uniform(-100, 100), 3)
         if t == "str":
